@@ -55,6 +55,31 @@ def actors(root):
             return ["read", v]
         return body
 
+    def A(sp, value):  # noqa  (whole-document assignment: one replacement, never an empty document in between)
+        def body(ctx):
+            p = signac.Project(root)
+            job = p.open_job(sp)
+            C.mark("BEGIN")
+            job.doc = dict(value)
+            C.mark("END")
+            return "assigned"
+        return body
+
+    def X():  # noqa
+        # a maintenance sweep (`for job in project: job.init()`) is not one of the property's actors and may itself fail
+        # when it meets a half-created job; it is only here as an environment for the others, its own failure is ignored
+        def body(ctx):
+            p = signac.Project(root)
+            C.mark("BEGIN")
+            try:
+                for job in p:
+                    job.init()
+            except Exception:  # noqa
+                pass
+            C.mark("END")
+            return "swept"
+        return body
+
     def L():  # noqa
         def body(ctx):
             p = signac.Project(root)
@@ -64,12 +89,15 @@ def actors(root):
             C.mark("END")
             return ["listed", n, len(ids)]
         return body
-    return I, W, R, L
+    return I, W, R, L, A, X
 
 
 def scenario_table(root):
-    I, W, R, L = actors(root)  # noqa
+    I, W, R, L, A, X = actors(root)  # noqa
     return {
+        "I(s)|X": [I(S_), X()],
+        "A(p)|R(p)": [A(PRE[0], {"k": 1, "z": [1, 2]}), R(PRE[0])],
+        "A(p)|W(p)": [A(PRE[0], {"k": 1}), W(PRE[1], "k", 2)],
         "I(s)|I(s)": [I(S_), I(S_)],
         "I(s)|I(t)": [I(S_), I(T_)],
         "I(e)|W(t)": [I(E_), W(T_, "k", 2)],
@@ -85,7 +113,7 @@ def scenario_table(root):
 
 
 QUICK = [("I(s)|I(s)", "empty"), ("I(s)|I(t)", "empty"), ("I(e)|W(t)", "populated"), ("I(s)|L", "populated"), ("I(s)|L", "empty"), ("W(s)|W(t)", "populated"),
-         ("W(s)|R(s)", "populated"), ("W(s,k1)|I(s)", "empty")]
+         ("W(s)|R(s)", "populated"), ("W(s,k1)|I(s)", "empty"), ("A(p)|R(p)", "populated"), ("I(s)|X", "populated")]
 
 
 def setup(tpl, start):
